@@ -49,6 +49,9 @@ class ProgGen:
     def stmt(self, out, depth, dodepth, in_word, in_do):
         r = self.r
         self.budget -= 1
+        if r.random() < 0.03:      # comments, at statement boundaries only (the parser does not skip them inside phrases)
+            out += r.choice([['(', 'a', 'comment', '(', 'nested', ')', ')'], ['\\', 'line', 'comment', '5', 'dup', '\n'],
+                             ['(', ')'], ['\n']])
         k = r.random()
         if k < 0.16:
             out.append(self.lit()); self.sd += 1
@@ -300,12 +303,10 @@ def render(rng, toks):
     """tokens -> source text with random whitespace, newlines and comments"""
     parts = []
     for t in toks:
-        x = rng.random()
-        if x < 0.015:
-            parts.append('( a comment ( nested ) ) ')
-        elif x < 0.025:
-            parts.append('\\ line comment ; then loop\n')
-        sep = ' ' if rng.random() < 0.85 else rng.choice(['\n', '  ', '\t', ' \n ', '\r\n'])
+        if t == '\n':
+            parts.append('\n')
+            continue
+        sep = ' ' if rng.random() < 0.85 else rng.choice(['  ', '\t', ' \r ', '\x0b', '\x0c '])
         parts.append(t + sep)
     return ''.join(parts).rstrip(' ') if rng.random() < 0.5 else ''.join(parts)
 
